@@ -177,9 +177,18 @@ def _check_corrupt(ctx: Ctx) -> None:
     ctx.instance('C08.c', construct)
     stmts = stmts_in_order(fn)
     rets = [s for s in stmts if isinstance(s, ast.Return) and s.value is not None]
-    if not rets or not all(isinstance(r.value, ast.Name) for r in rets) or len({r.value.id for r in rets}) != 1:
+    # every return hands out the received signal: the local itself, or the post filter applied to it
+    def local_of(e: ast.AST) -> Optional[str]:
+        if isinstance(e, ast.Name):
+            return e.id
+        names = {n.id for n in ast.walk(e) if isinstance(n, ast.Name) and n.id not in (sn, 'np', 'numpy', 'math')}
+        if len(names) == 1 and any(is_self_attr(n, sn) == 'big_W' for n in ast.walk(e)):
+            return names.pop()
+        return None
+    outs = {local_of(r.value) for r in rets}
+    if not rets or None in outs or len(outs) != 1:
         ctx.error('C08.c: corrupt_concatenated_data no longer returns one local (idiom unknown)')
-    out = rets[0].value.id
+    out = outs.pop()
     # (1) first definition of the output: product with the big_H *property*
     defs = [s for s in stmts if isinstance(s, ast.Assign) and any(isinstance(t, ast.Name) and t.id == out for t in s.targets)]
     if not defs:
@@ -213,7 +222,8 @@ def _check_corrupt(ctx: Ctx) -> None:
         # the stored name must not be re-assigned between the addition and the store
         nm = adds[0][1]
         asg = [s for s in stmts if isinstance(s, (ast.Assign, ast.AugAssign)) and
-               any(isinstance(t, ast.Name) and t.id == nm for t in (s.targets if isinstance(s, ast.Assign) else [s.target]))]
+               any(isinstance(t, ast.Name) and t.id == nm for t in (s.targets if isinstance(s, ast.Assign) else [s.target]))
+               and not (isinstance(s, ast.Assign) and isinstance(s.value, ast.Constant) and s.value.value is None)]
         if len(asg) != 1:
             ok2, why = False, 'noise local `%s` is assigned %d times' % (nm, len(asg))
     ctx.obligation('C08.c', construct + ':noise', ok2, {'added': [a[1] for a in adds], 'stored': nn})
@@ -223,6 +233,7 @@ def _check_corrupt(ctx: Ctx) -> None:
     # (3) post filter after noise
     filt = [s for s in stmts if isinstance(s, ast.Assign) and any(isinstance(t, ast.Name) and t.id == out for t in s.targets)
             and any(is_self_attr(n, sn) == 'big_W' for n in ast.walk(s.value))]
+    filt += [r for r in rets if not isinstance(r.value, ast.Name)]
     ok3 = bool(filt) and bool(adds) and all(f.lineno > adds[0][0].lineno for f in filt)
     ctx.obligation('C08.c', construct + ':filter-last', ok3, {'filter_stmts': [norm(f) for f in filt]})
     if not ok3:
